@@ -2,6 +2,7 @@ import HpackVerif.Props.SrcEncApi
 import HpackVerif.Props.SrcDec
 import HpackVerif.Props.SrcEnc
 import HpackVerif.Props.C01
+import HpackVerif.Props.C10
 /-! # C01 stated on the translated source
 
 The tie theorems say *translated source = model*; the property theorems say *the model has the property*. This module puts
@@ -92,7 +93,10 @@ theorem block_step (enc : Src.Encoder) (dec : Src.Decoder) (h : InStep enc dec)
         Src.Encoder.encode fuel enc hs huff = .ok (enc', block) ∧
         Src.Decoder.decode fuel dec block true = .ok (dec', out) ∧
         out.map (fun x => (x.1, x.2.1)) = cont.norm.map (fun x => (x.1, x.2.1)) ∧
-        InStep enc' dec' := by
+        InStep enc' dec' ∧
+        -- C10: after the block the two dynamic tables are the same list of (name, value) pairs with the same maximum
+        dec'.f_header_table.f_dynamic_entries = enc'.f_header_table.f_dynamic_entries ∧
+        dec'.f_header_table.f_maxsize = enc'.f_header_table.f_maxsize := by
   obtain ⟨c, hinv, hlim, hmax, hch, he, hd⟩ := h
   subst he hd
   have hfit' : listSize cont.norm ≤ c.dec.listLimit := by
@@ -110,8 +114,17 @@ theorem block_step (enc : Src.Encoder) (dec : Src.Decoder) (h : InStep enc dec)
   subst heq
   refine ⟨f0, fun fuel hfu => ?_⟩
   obtain ⟨block, out, h1, h2', h3⟩ := hf fuel hfu
-  exact ⟨absE e2, absD d', block, out, h1, h2', h3, ⟨e2, d'⟩, hinv', by rw [hl']; exact hlim, by rw [hmax2]; exact hmax,
-    by rw [hch2]; simp, rfl, rfl⟩
+  obtain ⟨ht, hm⟩ := Props.C10.lockstep_of_inv ⟨e2, d'⟩ hinv' hch2
+  refine ⟨absE e2, absD d', block, out, h1, h2', h3, ⟨⟨e2, d'⟩, hinv', by rw [hl']; exact hlim, by rw [hmax2]; exact hmax,
+    by rw [hch2]; simp, rfl, rfl⟩, ?_, ?_⟩
+  · show d'.table.entries.map proj = e2.table.entries.map proj
+    have : (RFC.absT d'.table) = (RFC.absT e2.table) := ht
+    simp only [RFC.absT] at this
+    have hfun : (proj : Entry → List UInt8 × List UInt8) = RFC.absE := rfl
+    rw [hfun]; exact this
+  · show ((d'.table.maxsize : Nat) : Int) = ((e2.table.maxsize : Nat) : Int)
+    simp only at hm
+    exact_mod_cast hm
 
 /-- **the application assigns `encoder.header_table_size = n`** (a size the decoder admits, below 2^60) -/
 theorem set_size_step (enc : Src.Encoder) (dec : Src.Decoder) (h : InStep enc dec) (n : Nat)
